@@ -395,15 +395,29 @@ func VerifC06Step() {
 		}
 		zzverif.Assert(altBlank, "alternate-screen-starts-blank")
 		vt.csi("H", [][]int{{1}, {1}})
+		vt.csi("m", [][]int{{1}, {45}})
 		vt.print(ansi.Print{Grapheme: "q", Width: 1})
 		vt.csi("?l", [][]int{{1049}})
+		zzverif.Assert(vt.cursor.Style.Background == ref.penBg && vt.cursor.Style.Attribute == 0, "leaving-the-alternate-screen-restores-the-pen")
 	case 4: // DECSC, move, DECRC
 		zzverif.Assume(!ref.pending)
 		vt.esc("7")
 		sr, sc := ref.row, ref.col
 		vt.csi("H", [][]int{{1}, {1}})
-		vt.esc("8")
+		// the saved cursor includes the SGR pen: change it (reset, or bold on another
+		// background) before restoring
+		if zzverif.Bool("resetpen") {
+			vt.csi("m", [][]int{{0}})
+		} else {
+			vt.csi("m", [][]int{{1}, {45}})
+		}
+		if zzverif.Bool("ansiRestore") {
+			vt.csi("u", nil)
+		} else {
+			vt.esc("8")
+		}
 		ref.row, ref.col = sr, sc
+		zzverif.Assert(vt.cursor.Style.Background == ref.penBg && vt.cursor.Style.Attribute == 0, "restore-cursor-restores-the-pen")
 	}
 	gridOK, styleOK := true, true
 	for r := 0; r < h; r++ {
